@@ -12,8 +12,8 @@ From V.lib Require Import Base.
 From V.c13 Require Import C13Model.
 From V.c17 Require Import C17Spec C17Model C17TypedModel.
 From V.c18 Require C18Model.
-From V.c14 Require C14Model.
-From V.c16 Require Import C16AuxModel C16AuxSeiProofs C16AuxExtractProofs C16AuxAacProofs C16AuxScanProofs.
+From V.c14 Require C14Spec C14Model.
+From V.c16 Require Import C16AuxModel C16AuxSeiProofs C16AuxExtractProofs C16AuxAacProofs C16AuxScanProofs C16AuxStreamProofs.
 
 (* ------------------------------------------------------------------ sei.ExtractSEIData *)
 (* every byte list: the Go-shaped run returns what the C17 model returns; never out of fuel;
@@ -152,6 +152,35 @@ Theorem C16_avc_ExtractNalusFromByteStream_total : forall d : list N,
   exists nalus, C14Model.extract_nalus_from_byte_stream d = Ok nalus /\ lenN nalus <= lenN d.
 Proof. exact extract_nalus_from_byte_stream_total. Qed.
 Print Assumptions C16_avc_ExtractNalusFromByteStream_total.
+
+(* the other helpers on the shared byte-stream loop: EVERY list, no hypothesis; every index / slice
+   expression of the loop bodies and of the code after the loop is in range *)
+Theorem C16_avc_GetFirstAVCVideoNALUFromByteStream_total : forall d : list N,
+  exists nalu, C14Model.avc_get_first_video_nalu d = Ok nalu /\ lenN nalu <= lenN d.
+Proof. exact avc_get_first_video_nalu_total. Qed.
+Print Assumptions C16_avc_GetFirstAVCVideoNALUFromByteStream_total.
+
+Theorem C16_avc_ExtractNalusOfTypeFromByteStream_total : forall (want : N) (stop : bool) (d : list N),
+  exists nalus, C14Model.avc_extract_nalus_of_type want stop d = Ok nalus /\ lenN nalus <= lenN d.
+Proof. exact (extract_nalus_of_type_total C14Spec.avc_type 6). Qed.
+Print Assumptions C16_avc_ExtractNalusOfTypeFromByteStream_total.
+
+Theorem C16_hevc_ExtractNalusOfTypeFromByteStream_total : forall (want : N) (stop : bool) (d : list N),
+  exists nalus, C14Model.hevc_extract_nalus_of_type want stop d = Ok nalus /\ lenN nalus <= lenN d.
+Proof. exact (extract_nalus_of_type_total C14Spec.hevc_type 32). Qed.
+Print Assumptions C16_hevc_ExtractNalusOfTypeFromByteStream_total.
+
+Theorem C16_avc_GetParameterSetsFromByteStream_total : forall d : list N,
+  exists v s p, C14Model.avc_get_parameter_sets_from_byte_stream d = Ok (v, s, p) /\
+                lenN v + lenN s + lenN p <= lenN d.
+Proof. exact (get_parameter_sets_from_byte_stream_total_N C14Spec.avc_type C14Model.avc_ps_class 6). Qed.
+Print Assumptions C16_avc_GetParameterSetsFromByteStream_total.
+
+Theorem C16_hevc_GetParameterSetsFromByteStream_total : forall d : list N,
+  exists v s p, C14Model.hevc_get_parameter_sets_from_byte_stream d = Ok (v, s, p) /\
+                lenN v + lenN s + lenN p <= lenN d.
+Proof. exact (get_parameter_sets_from_byte_stream_total_N C14Spec.hevc_type C14Model.hevc_ps_class 32). Qed.
+Print Assumptions C16_hevc_GetParameterSetsFromByteStream_total.
 
 (* ------------------------------------------------------------------ the models compute on hostile inputs *)
 (* known_findings/C16.json F5: SEI NAL payload 04 00 (type 4, size 0) reaches the registered decoder with an
